@@ -418,6 +418,14 @@ def cap_violations(ctx):
     ctx.violation = limited
 
 
+def _leg(fn, args):
+    try:
+        return True, fn(*args)
+    except Exception as e:
+        import traceback
+        return False, "%s: %s\n%s" % (type(e).__name__, e, traceback.format_exc()[-1500:])
+
+
 class CtxLike:
     """what the worker threads may use of ctx (forked in the main thread: no shared mutable state)"""
     def __init__(self, ctx, tag):
@@ -468,22 +476,28 @@ def run(ctx):
     workers = max(2, min(6, vcheck.NCPU // 3))
     legs = {}
     errors = {}
-
-    def guarded(name, fn, *a):
-        try:
-            legs[name] = fn(*a)
-        except (ModuleNotFoundError, KeyError, vcheck.BuildBroken) as e:
-            errors[name] = "%s: %s" % (type(e).__name__, e)
     hl_rng = ctx.rng.fork("hlsl")
     msl_ctx = CtxLike(ctx, "msl")
     glsl_ctx = CtxLike(ctx, "glsl")
-    with ThreadPoolExecutor(4) as ex:
-        fs = [ex.submit(guarded, "spirv", spirv_work, tools, exe_ir, exe_spv, workers),
-              ex.submit(guarded, "hlsl", hlsl_work, tools, exe_ir, exe_hlsl, hl_rng, ctx.scale(24, 120), quick),
-              ex.submit(guarded, "msl", msl_work, msl_ctx, tools, exe_ir, exe_msl, workers, quick),
-              ex.submit(guarded, "glsl", glsl_work, glsl_ctx, tools, exe_ir, exe_glsl, workers, quick)]
-        for f in fs:
-            f.result()
+    # one PROCESS per leg: the legs are dominated by Python work (JSON of IR dumps and ASTs, the text readers), threads would
+    # serialise on the interpreter lock
+    import multiprocessing
+    jobs = [("spirv", spirv_work, (tools, exe_ir, exe_spv, workers)),
+            ("hlsl", hlsl_work, (tools, exe_ir, exe_hlsl, hl_rng, ctx.scale(24, 120), quick)),
+            ("msl", msl_work, (msl_ctx, tools, exe_ir, exe_msl, workers, quick)),
+            ("glsl", glsl_work, (glsl_ctx, tools, exe_ir, exe_glsl, workers, quick))]
+    from concurrent.futures import ProcessPoolExecutor
+    with ProcessPoolExecutor(len(jobs), mp_context=multiprocessing.get_context("fork")) as ex:
+        fs = [(name, ex.submit(_leg, fn, args)) for name, fn, args in jobs]
+        for name, f in fs:
+            try:
+                okk, val = f.result()
+            except Exception as e:          # the leg's process died
+                okk, val = False, "%s: %s" % (type(e).__name__, e)
+            if okk:
+                legs[name] = val
+            else:
+                errors[name] = val
     lap("legs_compile_and_run")
     nrun = 0
     ndistinct = 0
@@ -500,6 +514,7 @@ def run(ctx):
         ndistinct += n
     else:
         text["hlsl"] = "not available: %s" % errors.get("hlsl")
+        ctx.violation("HLSL leg could not run: %s" % errors.get("hlsl"), found_input=False, broken="HLSL leg", key="c15:leg:hlsl")
     if "msl" in legs:
         text["msl"], n, d = msl_judge(ctx, legs["msl"])
         nrun += n
@@ -513,6 +528,7 @@ def run(ctx):
         ndistinct += n
     else:
         text["glsl"] = "not available: %s" % errors.get("glsl")
+        ctx.violation("GLSL leg could not run: %s" % errors.get("glsl"), found_input=False, broken="GLSL leg", key="c15:leg:glsl")
     lap("judge")
     ctx.cov["text_backends_hostile"] = text
     ctx.cov["phase_seconds"] = T
